@@ -10,6 +10,7 @@ from .. import core, tlc
 ALL_DEV = ["D_CTE_VISIBLE_IN_OWN_BODY"]
 SPEC_DEV = ["D_COMMA_JOIN_DROPS_JOINED", "D_SCALAR_SUBQUERY_BLIND", "D_HAVING_SUBQUERY_BLIND", "D_CTE_VISIBLE_IN_OWN_BODY"]
 ALL_CLAUSES = {"where", "isub", "having", "union"}
+PAREN_CLAUSES = {"where", "union", "paren"}
 INVS = ["MachineTablesExact", "LocalsNeverReported", "NoopReportsNothing", "DeviationsAccountedFor", "DefaultEqualsQualified", "EmitCase"]
 
 
@@ -28,7 +29,7 @@ def _run_chunk(args):
     from .. import stmt_drv as d
     out = []
     for c in cases:
-        sql = R.render(c["prog"])
+        sql = R.render(c["prog"], R.Opts(alias_scope=c.get("alias_scope", "global")))
         for dia in dialects:
             if dia != "ansi" and not d.accepts(sql, dia):
                 out.append(None)
@@ -54,6 +55,10 @@ def generate(chk, quick, seed):
                             tbl=("a",), ctes=("x",)),
                 "generate: every statement kind over small bodies", workers=1, coverage=False, timeout=5000)
     cases += [c for c in r.cases("CASE") if c["prog"][0]["a"] not in ("insert", "query")]
+    r = chk.tlc("Stmt", cfg(chk, "genp", 7 if quick else 8, kinds=("insert",), known=ALL_DEV, emit=True, clauses=PAREN_CLAUSES, tbl=("a", "b"), ctes=("x",),
+                            schemas=("none",)),
+                "generate: parenthesised joins", workers=1, coverage=False, timeout=5000)
+    cases += [c for c in r.cases("CASE") if any(e["e"] == "paren" for e in c["prog"])]
     n_exh = len(cases)
     r = chk.tlc("Stmt", cfg(chk, "gensim", 16, known=ALL_DEV, emit=True, maxdepth=4, maxrel=3, maxcte=2, invariants=["EmitCase"]),
                 "generate: simulated deeper programs (depth 4)", workers=1, coverage=False,
@@ -73,8 +78,17 @@ def prog_features(prog):
     f = set()
     depth_joined = {}
     stack = [False]
+    roles = []
     for e in prog:
         k = e["e"]
+        if k in ("sub", "where", "isub", "having", "cte", "main", "paren"):
+            if k == "sub" and "paren" in roles:
+                f.add("derived_table_inside_parenthesised_join")
+            roles.append(k)
+        elif k == "end" and roles:
+            roles.pop()
+        if k == "paren":
+            f.add("parenthesised_join")
         if k in ("tbl", "cteref", "sub"):
             if e["a"] == "inner":
                 stack[-1] = True
@@ -134,11 +148,21 @@ def run(chk):
                 "O1 every statement kind", workers=16, timeout=6000)
     if r.violated:
         raise core.MachineryError("Stmt.tla intended mechanism violates %s" % r.violated)
+    r = chk.tlc("Stmt", cfg(chk, "mcp", 7 if quick else 8, clauses=PAREN_CLAUSES, kinds=("insert",), schemas=("none",)), "O1 with parenthesised joins", workers=16, timeout=6000)
+    if r.violated:
+        raise core.MachineryError("Stmt.tla intended mechanism violates %s" % r.violated)
     for dev in SPEC_DEV:
         r = chk.tlc("Stmt", cfg(chk, "dev_" + dev, 6, known=[dev], invariants=["DeviantTablesExact"]), "expected-fail " + dev, workers=8,
                     expect_violation=True, coverage=False)
         chk.self_test("spec finds " + dev, bool(r.violated), ",".join(r.violated))
     cases, n_exh = generate(chk, quick, chk.seed)
+    # the same programs once more with alias numbering restarting in every query scope (aliases re-used across scopes,
+    # identical text for identical sub-bodies): all programs that have more than one scope
+    multi = [dict(c, alias_scope="local") for c in cases if sum(1 for e in c["prog"] if e["e"] in ("sub", "where", "isub", "having", "union", "cte")) >= 1]
+    if quick:
+        random.Random(chk.seed).shuffle(multi)
+        multi = multi[:2500]
+    cases = cases + multi
     pool = mp.Pool(16)
     try:
         res = pool.map(_run_chunk, [(c, ["ansi"]) for c in chunks(cases, 64)])
@@ -147,7 +171,7 @@ def run(chk):
     obs = [x for part in res for x in part]
     verdicts = decide(chk, cases, obs, "stmt")
     for c, v in zip(cases, verdicts):
-        chk.count(c["prog"], nontrivial=len([e for e in c["prog"] if e["e"] in ("sub", "where", "isub", "having", "union", "cte")]) > 0)
+        chk.count(c["prog"], nontrivial=len([e for e in c["prog"] if e["e"] in ("sub", "where", "isub", "having", "union", "cte", "paren")]) > 0)
     chk.cov["verdicts"] = {k: verdicts.count(k) for k in sorted(set(verdicts))}
     i = min(len(cases) - 1, 3000)
     chk.sample({"sql": obs[i]["sql"], "ideal_reads": cases[i]["reads"], "observed": obs[i]["reads"], "verdict": verdicts[i]})
